@@ -97,7 +97,7 @@ func (c *Conn) FailWrites(err error) { c.writeErr = err }
 
 // Break cuts the connection now (both directions, like a network failure); a scheduling point.
 func (c *Conn) Break() {
-	vsched.Point(vsched.KConnClose, c, nil)
+	vsched.Point(vsched.KConnClose, vsched.Multi{c, c.peer}, nil)
 	c.broken = true
 	c.peer.broken = true
 }
@@ -120,7 +120,7 @@ func (c *Conn) Read(b []byte) (int, error) {
 	if len(b) == 0 {
 		return 0, nil
 	}
-	vsched.Block(vsched.KConnRead, c, c.readable)
+	vsched.Block(vsched.KConnRead, vsched.Multi{c.peer, c}, c.readable)
 	c.Reads++
 	if c.closed {
 		return 0, &net.OpError{Op: "read", Net: "tcp", Err: errClosed}
@@ -146,7 +146,7 @@ func (c *Conn) Read(b []byte) (int, error) {
 }
 
 func (c *Conn) Write(b []byte) (int, error) {
-	vsched.Point(vsched.KConnWrite, c, nil)
+	vsched.Point(vsched.KConnWrite, vsched.Multi{c, c.peer}, nil)
 	c.Writes++
 	if c.closed {
 		return 0, &net.OpError{Op: "write", Net: "tcp", Err: errClosed}
@@ -188,7 +188,7 @@ func (c *Conn) Write(b []byte) (int, error) {
 
 // Close closes this end; the other end reads EOF after draining.
 func (c *Conn) Close() error {
-	vsched.Point(vsched.KConnClose, c, nil)
+	vsched.Point(vsched.KConnClose, vsched.Multi{c, c.peer}, nil)
 	if c.closed {
 		return &net.OpError{Op: "close", Net: "tcp", Err: errClosed}
 	}
@@ -263,9 +263,14 @@ func init() { vsched.OnReset(func() { DialHook = nil }) }
 
 // Dial connects to a registered listener.
 func (d *Dialer) Dial(network, addr string) (net.Conn, error) {
-	vsched.Point(vsched.KConnWrite, "dial "+addr, nil)
-	w.dials[addr]++
 	l := w.listeners[addr]
+	if l != nil {
+		vsched.Point(vsched.KConnWrite, vsched.Multi{l, "dial " + addr}, nil)
+	} else {
+		vsched.Point(vsched.KConnWrite, "dial "+addr, nil)
+	}
+	w.dials[addr]++
+	l = w.listeners[addr]
 	refuse := l == nil || l.closed || l.Down
 	if DialHook != nil && DialHook(addr, w.dials[addr]) {
 		refuse = true
